@@ -16,6 +16,18 @@ CHECKS = {
         note="Trusts TLC, the token renderer (tokens separated by one blank; values compared modulo runs of blanks) and, "
              "for sequences that are not 'clean', the tool's own tag reader on block-free text (C02's subject).",
         ref="5/C12"),
+    "C05": dict(
+        technique="TLC explores the product of subset-construction automata (R narrow / R wide / items parsed from the "
+                  "regular expression the real code compiled) per glob: language inclusion for paths of any length; "
+                  "mechanism model Translate |= R; TLC trace validation of matches() and lint --json answers",
+        text="For every well-formed glob up to the bound (TLC-enumerated), multi-glob annotations and seeded long globs, "
+             "TLC decides Narrow(g) <= L(compiled matcher) <= Wide(g) for ALL paths by reachability over the automata "
+             "product, and separately judges the real matcher's answers on all short and seeded longer paths, through "
+             "the API and through REUSE.toml + `reuse lint --json`.",
+        note="The unbounded result holds for the automaton items parsed from AnnotationsItem._paths_regex.pattern; that "
+             "the items mean what Python's re means (anchoring, DOTALL) is covered by the bounded direct route only. "
+             "If the pattern cannot be parsed the check degrades to the bounded route and says so in the evidence.",
+        ref="5/C05"),
 }
 
 NOT_YET = {}
